@@ -118,6 +118,9 @@ func New(c Config) *Server {
 	if root == "" {
 		root = os.TempDir()
 	}
+	if n == 1 {
+		cleanStale(root)
+	}
 	dir := filepath.Join(root, fmt.Sprintf("lalverif-%d-%d", os.Getpid(), n))
 	_ = os.RemoveAll(dir)
 	if err := os.MkdirAll(dir, 0o755); err != nil {
@@ -461,4 +464,26 @@ func (n *NotifyRecorder) OnRtmpConnect(info base.RtmpConnectInfo) {
 }
 func (n *NotifyRecorder) OnHlsMakeTs(info base.HlsMakeTsInfo) {
 	n.add(Event{Kind: "hls_make_ts", Stream: info.StreamName})
+}
+
+// cleanStale removes scratch directories left by processes that no longer
+// exist (killed on a timeout before they could clean up).
+func cleanStale(root string) {
+	ents, err := os.ReadDir(root)
+	if err != nil {
+		return
+	}
+	for _, e := range ents {
+		var pid, n int
+		if _, err := fmt.Sscanf(e.Name(), "lalverif-%d-%d", &pid, &n); err != nil {
+			continue
+		}
+		if pid == os.Getpid() {
+			continue
+		}
+		if _, err := os.Stat(fmt.Sprintf("/proc/%d", pid)); err == nil {
+			continue // still running
+		}
+		_ = os.RemoveAll(filepath.Join(root, e.Name()))
+	}
 }
